@@ -15,10 +15,32 @@ def vc(sub, step, quick, thorough, shards_thorough=16, extra=None):
     return d
 
 
+L3_ASSUME = L1_ASSUME + [
+    "the reference model (harness/vmodel/src/model.rs) is the reading of the property statements and the README; user callables come from a tagged library whose effect the model knows",
+    "generated receivers are compiled by rustc against /repo's working tree; receivers cover the generator's option grammar, not all Rust programs",
+]
+GEN_MAIN = {"name": "l3main", "kind": "main", "n": {"quick": 300, "thorough": 300}}
+
+
+def l3(sub, step, quick, thorough, shards_thorough=16, gen=GEN_MAIN):
+    return {"gen": gen, "sub": sub, "step": step, "cases": {"quick": quick, "thorough": thorough},
+            "shards": {"quick": 1, "thorough": shards_thorough}}
+
+
 CHECKS = {
+    "C01": {
+        "packages": ["vchecks", "vgen"],
+        "steps": [l3("c01", "l3", 90000, 4800000)],
+        "assumptions": L3_ASSUME,
+    },
+    "C02": {
+        "packages": ["vchecks", "vgen"],
+        "steps": [l3("c02", "l3", 90000, 4800000)],
+        "assumptions": L3_ASSUME,
+    },
     "C03": {
-        "packages": ["vchecks"],
-        "steps": [vc("c03a", "api", 30000, 1600000), vc("c03-maps", "maps", 20000, 800000)],
+        "packages": ["vchecks", "vgen"],
+        "steps": [vc("c03a", "api", 30000, 1600000), vc("c03-maps", "maps", 20000, 800000), l3("c03b", "l3", 90000, 4800000)],
         "assumptions": L1_ASSUME,
     },
     "C04": {
